@@ -1,3 +1,3 @@
 SPECIFICATION Spec
-INVARIANTS DriverClaimC05 C05Inv
+INVARIANTS DriverClaimC05 C05Inv SylInv
 CHECK_DEADLOCK FALSE
